@@ -870,6 +870,9 @@ def _abstract(f) -> bool:
     return any(unparse(d).endswith("abstractmethod") for d in f.node.decorator_list)
 
 
+OTHER_KINDS = {"str", "bytes", "list", "tuple", "dict", "set", "int", "float", "bool", "complex", "type(None)", "NoneType"}
+
+
 def rule_lenkind(ctx) -> RuleResult:
     res = RuleResult(
         "C07.LENKIND",
@@ -894,13 +897,26 @@ def rule_lenkind(ctx) -> RuleResult:
         v = fn.params[1]
         g = CFG(fn.node)
         array_kinds = {"ndarray"}
+        resolve = literal_resolver(p, fn0)
+
+        def type_names(e, depth=0, node=fn.node):
+            """the classes an isinstance() second argument stands for: tuples flattened, a hoisted constant (ARRAY_OR_NONE = (np.ndarray,
+            type(None))) or a local bound once followed to what it is bound to; a name that cannot be followed stays as it is (unknown kind)"""
+            e = xp(e, node)
+            if isinstance(e, ast.Tuple):
+                return [nm for x in e.elts for nm in type_names(x, depth + 1)]
+            if isinstance(e, ast.Name) and depth < 6:
+                bound = resolve(e.id)
+                if bound is not None:
+                    return type_names(bound, depth + 1)
+            return [unparse(e).split(".")[-1]]
 
         def atom(e, node=fn.node, v=v):
             # scenario: the argument is an np.ndarray, the expected count is known, the association is not OBJECT
             e = xp(e, node)
             if isinstance(e, ast.Call) and fname(e) == "isinstance" and len(e.args) == 2 and unparse(e.args[0]) == v:
-                names = [unparse(x).split(".")[-1] for x in (e.args[1].elts if isinstance(e.args[1], ast.Tuple) else [e.args[1]])]
-                return True if any(nm in array_kinds for nm in names) else (False if all(nm.isidentifier() or nm == "type(None)" for nm in names) else None)
+                names = type_names(e.args[1])
+                return True if any(nm in array_kinds for nm in names) else (False if all(nm in OTHER_KINDS for nm in names) else None)
             if isinstance(e, ast.Compare) and len(e.ops) == 1 and isinstance(e.ops[0], (ast.Is, ast.IsNot, ast.Eq, ast.NotEq)):
                 pos = isinstance(e.ops[0], (ast.Is, ast.Eq))
                 a, b = unparse(e.left), unparse(e.comparators[0])
@@ -916,7 +932,7 @@ def rule_lenkind(ctx) -> RuleResult:
                   and any(isinstance(x, ast.Name) and x.id == v for x in ast.walk(xp(n.ast.value, fn.node)))]
         seen_nodes = reach3(g, [g.entry], ev)
         stores = [n for n in stores if n in seen_nodes]
-        admits = any(isinstance(c, ast.Call) and fname(c) == "isinstance" and len(c.args) == 2 and unparse(c.args[0]) == v and "ndarray" in unparse(c.args[1])
+        admits = any(isinstance(c, ast.Call) and fname(c) == "isinstance" and len(c.args) == 2 and unparse(c.args[0]) == v and "ndarray" in type_names(c.args[1])
                      for n in g.nodes if n.ast is not None and not isinstance(n.ast, list) and n.kind != "with" for c in ast.walk(n.ast))
         if not stores or not admits:
             continue
